@@ -1,5 +1,5 @@
 #!/bin/bash
-# fixsweep.sh: every repaired defect F1..F20, F23, F24 is detected again when its fix is reverted
+# fixsweep.sh: every repaired defect F1..F20, F23..F25 is detected again when its fix is reverted
 cd /verif
 tools/fixrevert.sh d6a87fc C01
 tools/fixrevert.sh 177e609 C03 C12
@@ -19,3 +19,4 @@ tools/fixrevert.sh 42ad752 C05
 tools/fixrevert.sh ec5b90a C05
 tools/fixrevert.sh 8458cab C05
 tools/fixrevert.sh 5d32eff C14
+tools/fixrevert.sh 9ad6b38 C04
